@@ -242,6 +242,9 @@ Proof.
   - split; [exact Hptrs|]. split; [exact Hend|]. cbn [r_mfirst r_mafter].
     intros m Hm1 Hm2. change (mf <= m) in Hm1.
     set (i := N.to_nat m). unfold ix_rows. cbn [ix_maps]. fold i.
+    change (r_mfirst (is_rg st) - N.pos (Pos.shiftl 1 (p_lmpe P))) with mf.
+    assert (Ei : i = N.to_nat m) by reflexivity.
+    assert (Emf : mf = r_mfirst (is_rg st) - mpe) by reflexivity.
     assert (Hlf : length (firstn (N.to_nat mf) (ix_maps (is_ix st))) = N.to_nat mf)
       by (apply firstn_length_le; lia).
     destruct (N.ltb_spec m (r_mfirst (is_rg st))) as [Hlt|Hge].
@@ -253,9 +256,12 @@ Proof.
     + destruct (Hrows m Hge Hm2) as (rw & Hren & Hrw). exists rw. split; [exact Hren|].
       rewrite <- Hrw. unfold ix_rows. fold i.
       rewrite nth_error_app2 by lia. rewrite Hlf, nth_error_app2 by lia.
-      rewrite Hlnm, nth_error_skipn'. f_equal. lia.
+      rewrite Hlnm, nth_error_skipn'.
+      replace (N.to_nat (r_mfirst (is_rg st)) + (i - N.to_nat mf - N.to_nat mpe))%nat with i by lia.
+      reflexivity.
   - unfold LogIndexExact.rg_ok. cbn [r_bfirst r_bafter r_head_indexed r_mfirst r_mafter ix_ptrs].
     split; [exact Hba|]. split; [exact Hhead|]. split; [exact Hma|].
+    change (r_mfirst (is_rg st) - N.pos (Pos.shiftl 1 (p_lmpe P))) with mf.
     destruct (0 <? mf) eqn:Emf; intros Hlt.
     + destruct (tail_block_ok _ lay e' (is_ix st) mf _ Hlay Hne Hptrs Hba Hlt ltac:(lia)) as (bf & pf & E1 & E2 & E3).
       exists bf, pf. auto.
@@ -323,3 +329,60 @@ Proof.
 Qed.
 
 End History.
+
+(* ---- a concrete history (non-vacuity example of Properties/C40.v) ---- *)
+Definition demo_ix : index :=
+  match build_index demoP idv idv demo_row demo_col 16 demo_chain with
+  | Some ix => ix | None => mkIndex [] [] 0 end.
+Definition demo_st0 : istate := mkIState demo_chain demo_ix (idle_range demoP demo_ix 6 3 0).
+(* a reorg: blocks 5 and 6 are replaced by four new blocks *)
+Definition demo_new : list (list log) :=
+  firstn 5 demo_chain ++
+  [ [demo_log 5 0 0 7 [6; 7]]; [demo_log 6 0 0 5 [6; 6; 6]; demo_log 6 1 1 5 [6]];
+    [demo_log 7 0 0 5 [6]; demo_log 7 1 1 5 [7; 6]]; [demo_log 8 0 0 5 [6; 6; 6; 6]] ].
+
+Lemma fits_of_bool P chain :
+  forallb (forallb (fun l => log_len l <=? vpm P)) chain = true ->
+  forall b l, In b chain -> In l b -> log_len l <= vpm P.
+Proof.
+  intros H b l Hb Hl. rewrite forallb_forall in H. specialize (H b Hb).
+  rewrite forallb_forall in H. specialize (H l Hl). lia.
+Qed.
+
+Lemma demo_head_guard : head_guard demoP demo_st0 demo_new 2 5.
+Proof.
+  unfold head_guard.
+  split; [lia|]. split; [vm_compute; lia|]. split; [vm_compute; lia|].
+  split; [reflexivity|].
+  split; [apply N.leb_le; vm_compute; reflexivity|].
+  split; [apply N.ltb_lt; vm_compute; reflexivity|].
+  split; [apply N.ltb_lt; vm_compute; reflexivity|].
+  split; [apply N.leb_le; vm_compute; reflexivity|].
+  split; [apply N.leb_le; vm_compute; reflexivity|].
+  split; [vm_compute; lia|].
+  apply fits_of_bool. vm_compute. reflexivity.
+Qed.
+
+Definition demo_keys (ms : list log) : list N := map (fun l => 16 * lg_blk l + lg_idx l) ms.
+Definition demo_query_ok (st : istate) (head : N) : bool :=
+  match range_logs demoP idv idv demo_row demo_col 16 (is_chain st) (is_ix st) (is_rg st) head
+                   [5] [[6]] (Some 0) None,
+        scan (is_chain st) [5] [[6]] 0 head with
+  | QOk ms, Some s => (length ms =? 8)%nat && leqb (demo_keys ms) (demo_keys s)
+  | _, _ => false
+  end.
+
+(* reorg at the head, then unindexing of tail epoch 1, then re-indexing of that epoch: the
+   ranges move as expected and the query across the whole chain returns the scan each time *)
+Definition c40_demo_history : bool :=
+  match render_head demoP idv idv demo_row demo_col 16 demo_st0 demo_new 2 with
+  | None => false
+  | Some st1 =>
+      (r_bfirst (is_rg st1) =? 4) && (r_mafter (is_rg st1) =? 6) && demo_query_ok st1 8 &&
+      let st2 := unindex_tail_epoch demoP st1 1 in
+      (r_bfirst (is_rg st2) =? 8) && (r_mfirst (is_rg st2) =? 4) && demo_query_ok st2 8 &&
+      match index_tail_epoch demoP idv idv demo_row demo_col 16 st2 with
+      | None => false
+      | Some st3 => (r_bfirst (is_rg st3) =? 4) && (r_mfirst (is_rg st3) =? 2) && demo_query_ok st3 8
+      end
+  end.
